@@ -1,7 +1,17 @@
-(* C05 — lemmas, part 4: reachable states satisfy the invariant; terminal states are good; refutation witness. *)
+(* C05 — lemmas, part 4: reachable states satisfy the invariant; terminal states are good; the combined theorem.
+   Everything is proved for EVERY record of source facts F with [facts_ok F = true]; Props.v instantiates F with the
+   record generated from the working tree (GU.C05.Gen.gen_facts) and discharges facts_ok by computation. *)
 From Coq Require Import List Bool Arith Lia.
 Import ListNotations.
-From GU Require Import C05.Model C05.Proofs C05.ProofsInv C05.ProofsStart.
+From GU Require Import C05.Model C05.Proofs C05.ProofsInv C05.ProofsStart C05.ProofsStartTerm.
+
+Section WithFacts.
+Variable F : facts.
+Hypothesis HF : facts_ok F = true.
+Local Notation step := (step F).
+Local Notation run := (run F).
+Local Notation exec1 := (exec1 F).
+Local Notation terminal := (terminal F).
 
 Lemma run_inv : forall sched s, executes s = true -> ctxk (kmode s) = true -> no_outside_holder (prog s) = true -> Inv s ->
   Inv (run s sched) /\ executes (run s sched) = true /\ kmode (run s sched) = kmode s.
@@ -9,8 +19,8 @@ Proof.
   induction sched as [|l r IH]; intros s He Hk Hok I; [simpl; auto|].
   change (run s (l :: r)) with (run (exec1 s l) r).
   assert (Hs : Inv (exec1 s l) /\ executes (exec1 s l) = true /\ kmode (exec1 s l) = kmode s /\ prog (exec1 s l) = prog s).
-  { unfold exec1. destruct (step s l) as [s1|] eqn:E; auto.
-    destruct (step_modes _ _ _ E) as (A & B & C).
+  { unfold Model.exec1. destruct (step s l) as [s1|] eqn:E; auto.
+    destruct (step_modes F _ _ _ E) as (A & B & C).
     split; [eapply inv_step; eauto|]. split; [unfold executes in *; rewrite A; exact He | split; [exact B | exact C]]. }
   destruct Hs as (X & Y & Z & W).
   destruct (IH (exec1 s l)) as (P & Q & R); auto; [now rewrite Z | now rewrite W |].
@@ -20,19 +30,21 @@ Qed.
 Lemma terminal_good : forall s, executes s = true -> ctxk (kmode s) = true -> Inv s ->
   terminal s -> fired s = true -> good s.
 Proof.
-  intros s He Hk I T F.
-  destruct I as (I1 & I2 & I3 & I4 & I5 & I6 & I7 & I8 & I9 & I10 & I11 & I12 & I13 & I15 & I14).
-  pose proof (T LMain) as TM. pose proof (T LWatch) as TW. pose proof (T LRunWatch) as TD.
-  simpl in TM, TW, TD. unfold main_step in TM. unfold watch_step in TW. unfold runwatch_step in TD.
-  destruct (I5 F) as [U C].
+  intros s He Hk I T Fi.
+  destruct (facts_all F HF) as (Hkw & Hrw & Hpk & Hsk & Hcl & Hsr & Hsc & Hel & Hef & Hms).
+  destruct I as (I1 & I2 & I3 & I4 & I5 & I6 & I7 & I8 & I9 & I10 & I12 & I13 & I15 & I14).
+  pose proof (T LMain) as TM. pose proof (T LRunWatch) as TD.
+  simpl in TM, TD. unfold main_step in TM. unfold runwatch_step in TD.
+  destruct (I5 Fi) as [U C].
   destruct (mainpc s) eqn:Em; simpl in *.
   - destruct I1 as (_ & X & _); auto. congruence.
   - destruct I1 as (_ & X & _); auto. congruence.
-  - destruct (leader_dead (tbl s)) eqn:L; [discriminate|].
-    rewrite C, (I9 eq_refl) in TW. simpl in TW. destruct (w_done s) eqn:W; [|discriminate].
-    rewrite (no_ingroup_leader_dead (tbl s) I13 (I12 (I11 eq_refl))) in L. discriminate.
-  - destruct (pipes_free s) eqn:Pf; [discriminate|]. unfold pipes_free in Pf.
-    rewrite C in TD. simpl in TD. destruct (rw_done s) eqn:W; [|discriminate].
+  - (* in Wait, the direct child alive: the watcher of Run is enabled until it has killed the group *)
+    destruct (leader_dead (tbl s)) eqn:L; [discriminate|].
+    rewrite Hrw, C in TD. simpl in TD. destruct (rw_done s) eqn:W; [|discriminate].
+    rewrite (no_ingroup_leader_dead (tbl s) I13 (I12 (I8 eq_refl))) in L. discriminate.
+  - destruct (pipes_free F s) eqn:Pf; [discriminate|]. unfold pipes_free in Pf. apply orb_false_iff in Pf as [Pf _].
+    rewrite Hrw, C in TD. simpl in TD. destruct (rw_done s) eqn:W; [|discriminate].
     rewrite (tbl_ok_no_holder (tbl s) I15 (I12 (I8 eq_refl))) in Pf. discriminate.
   - discriminate.
   - destruct (I14 eq_refl) as [R G]. unfold good, call_returned, is_on. rewrite He, Em, U, R. repeat split; auto.
@@ -42,7 +54,7 @@ Lemma cancel_kills_group_l : forall sm km t sched,
   sm <> SStart -> ctxk km = true -> no_outside_holder t = true ->
   let s := run (init sm km t) sched in terminal s -> fired s = true -> good s.
 Proof.
-  intros sm km t sched Hs Hk Hok s T F.
+  intros sm km t sched Hs Hk Hok s T Fi.
   assert (He : executes (init sm km t) = true) by (destruct sm; auto; congruence).
   destruct (run_inv sched (init sm km t) He Hk Hok (inv_init sm km t)) as (I & E & K).
   apply terminal_good; auto. unfold s. rewrite K. exact Hk.
@@ -53,43 +65,30 @@ Lemma cancel_kills_group_full_l : forall sm km t sched,
   supported sm km = true -> no_outside_holder t = true ->
   let s := run (init sm km t) sched in terminal s -> fired s = true -> good s.
 Proof.
-  intros sm km t sched Hs Hok s T F.
+  intros sm km t sched Hs Hok s T Fi.
   destruct sm.
   - assert (K : ctxk km = true) by (destruct km; simpl in *; auto; discriminate).
     apply cancel_kills_group_l; auto; discriminate.
-  - destruct (runS_inv sched (init SStart km t) eq_refl Hok (invS_init SStart km t)) as (I & E).
-    apply terminalS_good; auto.
+  - destruct (runS_inv F HF sched (init SStart km t) eq_refl Hok (invS_init SStart km t)) as (I & E).
+    apply (terminalS_good F); auto.
   - assert (K : ctxk km = true) by (destruct km; simpl in *; auto; discriminate).
     apply cancel_kills_group_l; auto; discriminate.
 Qed.
 
-(* Stop() on a subprocess started with Execute(): a reachable state in which nothing can move, the request has been
-   issued, the tree is alive, the call has not returned and IsOn() is true *)
+End WithFacts.
+
 Definition leaf_tree := T false true false false [].
-Lemma stop_on_execute_refuted_l :
-  let s := run (init SExecute KStop leaf_tree) [LMain; LMain; LUser; LUser] in
-  terminal s /\ fired s = true /\ no_ingroup_alive (tbl s) = false /\ call_returned s = false /\ is_on s = true.
-Proof.
-  cbv zeta. repeat split; try reflexivity.
-  intros l; destruct l; try reflexivity. destruct i as [|[|i]]; reflexivity.
-Qed.
-
-(* a descendant that left the group keeps the pipes: Execute stays in Wait although the group is dead (known finding) *)
 Definition away_tree := T false true false false [T false true true false []].
-Lemma outside_holder_refuted_l :
-  let s := run (init SExecute KCtx away_tree) [LMain; LMain; LProc 0; LUser; LWatch; LRunWatch; LMain; LMon; LMon] in
-  terminal s /\ fired s = true /\ no_ingroup_alive (tbl s) = true /\ call_returned s = false /\ is_on s = true.
+
+(* runs that are not cancelled are unchanged: with no WaitDelay in the source, Run returns only when nobody alive holds
+   the output pipes *)
+Lemma run_waits_for_pipes_l : forall F, no_waitdelay F = true ->
+  forall s s', mainpc s = M3 -> step F s LMain = Some s' -> no_holder (tbl s) = true.
 Proof.
-  cbv zeta. repeat split; try reflexivity.
-  intros l; destruct l; try reflexivity. destruct i as [|[|[|i]]]; reflexivity.
+  intros F Hw s s' Hm H. simpl in H. unfold main_step in H. rewrite Hm in H. unfold pipes_free in H. rewrite Hw in H.
+  simpl in H. rewrite orb_false_r in H. destruct (no_holder (tbl s)); [reflexivity | discriminate].
 Qed.
 
-(* runs that are not cancelled are unchanged: Run returns only when nobody alive holds the output pipes *)
-Lemma run_waits_for_pipes_l : forall s s', mainpc s = M3 -> step s LMain = Some s' -> no_holder (tbl s) = true.
-Proof.
-  intros s s' Hm H. simpl in H. unfold main_step in H. rewrite Hm in H. unfold pipes_free in H.
-  destruct (no_holder (tbl s)); [reflexivity | discriminate].
-Qed.
 Lemma tw_size : forall t, tw t = 2 * tree_size t.
 Proof.
   fix IH 1. intros [a b c d kids]. rewrite tw_eq. simpl tree_size.
@@ -99,5 +98,5 @@ Proof.
   lia.
 Qed.
 
-Lemma cancel_bounded_l : forall sm km t sched, steps_taken (init sm km t) sched <= 38 + 2 * tree_size t.
+Lemma cancel_bounded_l : forall F sm km t sched, steps_taken F (init sm km t) sched <= 38 + 2 * tree_size t.
 Proof. intros. rewrite <- tw_size. apply run_bounded_l. Qed.
